@@ -279,6 +279,38 @@ def _simple(e: ast.AST) -> bool:
   return isinstance(e, ast.Name)
 
 
+# --------------------------------------------------------------------------- expression helpers
+def _as_expression(fn: ast.FunctionDef) -> Optional[ast.AST]:
+  """The helper as ONE expression if its body is only `return e` / if-else chains of returns (-> conditional
+  expressions); None otherwise."""
+  def conv(stmts: List[ast.stmt]) -> Optional[ast.AST]:
+    if not stmts:
+      return None
+    st = stmts[0]
+    if isinstance(st, ast.Return) and st.value is not None:
+      return st.value
+    if isinstance(st, ast.If):
+      t = conv(list(st.body))
+      if t is None or not _always_returns(st.body):
+        return None
+      f = conv(list(st.orelse) if st.orelse else stmts[1:])
+      if f is None:
+        return None
+      return ast.copy_location(ast.IfExp(test=st.test, body=t, orelse=f), st)
+    return None
+  body = _strip_doc(fn.body)
+  if any(isinstance(x, (ast.NamedExpr, ast.Yield, ast.YieldFrom, ast.Await, ast.Lambda)) for s_ in body for x in ast.walk(s_)):
+    return None
+  # comprehensions bind their own names: only allow them when they do not reuse a parameter name as a target
+  params = {a.arg for a in fn.args.args + fn.args.kwonlyargs}
+  for s_ in body:
+    for x in ast.walk(s_):
+      if isinstance(x, ast.comprehension):
+        if any(isinstance(n_, ast.Name) and n_.id in params for n_ in ast.walk(x.target)):
+          return None
+  return conv(body)
+
+
 # --------------------------------------------------------------------------- the inliner
 class _Inliner:
 
@@ -324,6 +356,80 @@ class _Inliner:
     if props:
       self._inline_props(fn, props)
     fn.body = self._do_block(fn.body, fn, mod_helpers, meths)
+    self._inline_expr_helpers(fn, mod_helpers, meths)
+
+  def _inline_expr_helpers(self, fn: ast.FunctionDef, mod_helpers, meths) -> None:
+    """Calls of expression-only helpers with simple arguments are replaced in place, wherever they occur
+    (comprehensions, subscripts, arguments): substituting a pure expression for its call is exact."""
+    me = self
+
+    class E(ast.NodeTransformer):
+      def visit_FunctionDef(self, node):
+        if node is fn:
+          self.generic_visit(node)
+        return node
+
+      def visit_Lambda(self, node):
+        return node
+
+      def visit_Call(self, node: ast.Call):
+        self.generic_visit(node)
+        r = me._resolve(node, fn, mod_helpers, meths)
+        if r is None:
+          return node
+        helper, recv = r
+        expr = _as_expression(helper)
+        if expr is None:
+          return node
+        if any(isinstance(a, ast.Starred) for a in node.args) or any(k.arg is None for k in node.keywords):
+          return node
+        params = [a.arg for a in helper.args.args]
+        kwonly = [a.arg for a in helper.args.kwonlyargs]
+        bound: Dict[str, ast.AST] = {}
+        pos = list(params)
+        if recv is not None:
+          if not pos:
+            return node
+          bound[pos.pop(0)] = recv
+        elif any(isinstance(d, ast.Name) and d.id == 'classmethod' for d in helper.decorator_list):
+          if not pos:
+            return node
+          bound[pos.pop(0)] = node.func.value if isinstance(node.func, ast.Attribute) else ast.Name(id='cls', ctx=ast.Load())
+        if len(node.args) > len(pos):
+          return node
+        for p_, a in zip(pos, node.args):
+          bound[p_] = a
+        for k in node.keywords:
+          if k.arg in bound or k.arg not in params + kwonly:
+            return node
+          bound[k.arg] = k.value
+        dpos = helper.args.args[len(helper.args.args) - len(helper.args.defaults):]
+        for a, d in zip(dpos, helper.args.defaults):
+          bound.setdefault(a.arg, d)
+        for a, d in zip(helper.args.kwonlyargs, helper.args.kw_defaults):
+          if d is not None:
+            bound.setdefault(a.arg, d)
+        if any(p_ not in bound for p_ in params + kwonly):
+          return node
+        # every argument must be simple (re-evaluating it is free of effects), or used exactly once
+        uses = {}
+        for x in ast.walk(expr):
+          if isinstance(x, ast.Name) and x.id in bound:
+            uses[x.id] = uses.get(x.id, 0) + 1
+        for p_, a in bound.items():
+          if not _simple(a) and uses.get(p_, 0) > 1:
+            return node
+        # locals bound inside the expression (comprehension targets) must not capture names of the arguments
+        inner = {n_.id for x in ast.walk(expr) if isinstance(x, ast.comprehension) for n_ in ast.walk(x.target) if isinstance(n_, ast.Name)}
+        argnames = {n_.id for a in bound.values() for n_ in ast.walk(a) if isinstance(n_, ast.Name)}
+        if inner & argnames:
+          return node
+        new = _Subst(bound, {}).visit(copy.deepcopy(expr))
+        me.count += 1
+        me.names[helper.name] = me.names.get(helper.name, 0) + 1
+        return ast.copy_location(new, node)
+    E().visit(fn)
+    ast.fix_missing_locations(fn)
 
   def _inline_props(self, fn: ast.FunctionDef, props: Dict[str, ast.FunctionDef]) -> None:
     if not fn.args.args:
